@@ -202,6 +202,29 @@ func init() {
 					flags += "!INTERLEAVED-SCANNERS-DIFFER-FROM-A-SINGLE-SCAN"
 				}
 			}
+			// a scanner that has reported the end is polled again (callers loop on Scan) while a scanner created after it is
+			// in the middle of its scan: the finished one stays finished and the live one still yields the whole sequence
+			for _, s := range []*filterlist.RuleStorage{ss, fs} {
+				done := s.NewRuleStorageScanner()
+				for done.Scan() {
+				}
+				live := s.NewRuleStorageScanner()
+				var o []ent
+				for n := 0; ; n++ {
+					if n%2 == 0 && done.Scan() {
+						flags += "!FINISHED-SCANNER-YIELDS-AGAIN"
+						break
+					}
+					if !live.Scan() {
+						break
+					}
+					r, idx := live.Rule()
+					o = append(o, ent{idx, kindOf(r), r.Text(), r.GetFilterListID()})
+				}
+				if fmt.Sprint(o) != fmt.Sprint(a) {
+					flags += "!SCAN-DISTURBED-BY-A-FINISHED-SCANNER"
+				}
+			}
 			render := func(l []ent) string {
 				p := make([]string, len(l))
 				for i, e := range l {
